@@ -672,6 +672,16 @@ def chain_case(rng, rounds=2):
         for a in order:                 # upstream first: a later assignment resets what depends on it
             if a.get("inv_by") and a["aid"] not in empty_ids and rng.random() < 0.85:
                 assign(a)
+        if empties and not frozen and rng.random() < 0.35:
+            # a REJECTED call in between: reset_<a>(_inplace=True) / del obj.a on an attribute without
+            # default that holds nothing is an AttributeError -- and, like every call that raises,
+            # leaves the receiver (here: the non-default values of what depends on a) as it was
+            # (C05-G1 reset the dependants before raising; judged by Corr/SpecCorr.judge)
+            a = rng.choice(empties)
+            if rng.random() < 0.5:
+                h.add(("delattr", x, a["aid"]), ("none",))
+            else:
+                h.add(("helper", x, ("reset", a["aid"]), {"inplace": True, "if_": True}), ("inst", cid))
         heads = [a for a in attrs if not a.get("inv_by")] or attrs
         r = rng.random()
         if r < 0.7:
